@@ -1,6 +1,7 @@
 import OasisModel.Staking.Ledger
 import OasisProofs.Helpers.Staking
 import OasisProofs.Props.C15
+import OasisProofs.Props.C05Commission
 import Mathlib.Tactic.Ring
 import Mathlib.Tactic.Linarith
 /-
@@ -551,6 +552,27 @@ theorem withdraw_good (l l' : Ledger) (dst src amount : Nat) (hd : dst < l.n) (h
 
 /-! ### A whole transaction -/
 
+/-- `AmendCommissionSchedule` only replaces the signer's commission schedule: no balance, pool,
+delegation or scalar moves — accepted or refused, the invariant is untouched. -/
+theorem amendCommissionSchedule_good (l l' : Ledger) (src : Nat) (am : Schedule) (hs : src < l.n) (h : Inv l)
+    (hok : amendCommissionSchedule l src am = .ok l') : Good l l' := by
+  unfold amendCommissionSchedule at hok
+  split at hok; · cases hok
+  dsimp only at hok
+  split at hok; · cases hok
+  split at hok; · cases hok
+  rename_i s' hs'
+  injection hok with hok; subst hok
+  refine ⟨Inv.ofShares ?_ ?_, rfl, rfl, rfl, Nat.le_refl _, ⟨rfl, rfl, rfl, rfl, rfl⟩⟩
+  · have t1 := accountsTotal_setAcct l src { l.acct src with schedule := s' } hs
+    have hsup := h.supply
+    show l.totalSupply = accountsTotal (l.setAcct src _) + l.common + l.govDeposits
+      + (if l.lbfSpent then 0 else l.lastBlockFees) + l.feeAcc
+    simp only [Account.bal] at t1
+    generalize (if l.lbfSpent = true then 0 else l.lastBlockFees) = lbf at *
+    omega
+  · exact sharesInv_upd_acct h.shares src _ rfl rfl
+
 /-- The account numbers a transaction body mentions are in range. -/
 def bodyScoped (n : Nat) : TxBody → Prop
   | .transfer dst _ => dst < n
@@ -559,6 +581,7 @@ def bodyScoped (n : Nat) : TxBody → Prop
   | .reclaimEscrow e _ => e < n
   | .allow _ _ _ => True
   | .withdraw src _ => src < n
+  | .amend _ => True
 
 theorem execBody_good (l l' : Ledger) (signer : Nat) (body : TxBody) (hs : signer < l.n)
     (hb : bodyScoped l.n body) (h : Inv l) (hok : execBody l signer body = .ok l') : Good l l' := by
@@ -569,6 +592,7 @@ theorem execBody_good (l l' : Ledger) (signer : Nat) (body : TxBody) (hs : signe
   | reclaimEscrow e shares => exact reclaimEscrow_good l l' signer e shares hs hb h hok
   | allow b neg ch => exact allow_good l l' signer b neg ch hs h hok
   | withdraw src amount => exact withdraw_good l l' signer src amount hs hb h hok
+  | amend am => exact amendCommissionSchedule_good l l' signer am hs h hok
 
 /-- **Every transaction, successful or not, leaves a ledger that satisfies the invariant**: a failed
 fee payment persists nothing, a failed body persists only the fee payment and the nonce. -/
@@ -839,8 +863,8 @@ theorem computeCommission_ok {rate q com rest : Nat} (h : computeCommission rate
 
 /-- Reward of one account: the non-commission part raises the active balance, the commission is
 deposited for the self-delegation; both come out of the common pool. -/
-theorem rewardAccount_good (l l' : Ledger) (a q : Nat) (ha : a < l.n) (h : Inv l)
-    (hok : rewardAccount l a q = .ok l') : Good l l' := by
+theorem rewardAccount_good (l l' : Ledger) (ep a q : Nat) (ha : a < l.n) (h : Inv l)
+    (hok : rewardAccount l ep a q = .ok l') : Good l l' := by
   unfold rewardAccount at hok
   split at hok
   · injection hok with hok; subst hok; exact Good.refl h
@@ -848,7 +872,7 @@ theorem rewardAccount_good (l l' : Ledger) (a q : Nat) (ha : a < l.n) (h : Inv l
   · injection hok with hok; subst hok; exact Good.refl h
   rename_i hq0 hqc
   simp only at hok
-  cases hc : computeCommission ((l.acct a).commission.getD l.params.minCommissionRate) q with
+  cases hc : computeCommission (l.rateOf a ep) q with
   | error e => simp [hc] at hok
   | ok cr =>
     obtain ⟨com, rest⟩ := cr
@@ -903,20 +927,20 @@ theorem addRewardSingleAttenuated_good (l l' : Ledger) (epoch factor num den a :
   · injection hok with hok; subst hok; exact Good.refl h
   · split at hok; · cases hok
     split at hok; · cases hok
-    exact rewardAccount_good l l' a _ ha h hok
+    exact rewardAccount_good l l' _ a _ ha h hok
 
-theorem addRewardsLoop_good (l l' : Ledger) (factor scale : Nat) (as : List Nat) (has : ∀ a ∈ as, a < l.n)
-    (h : Inv l) (hok : addRewardsLoop l factor scale as = .ok l') : Good l l' := by
+theorem addRewardsLoop_good (l l' : Ledger) (ep factor scale : Nat) (as : List Nat) (has : ∀ a ∈ as, a < l.n)
+    (h : Inv l) (hok : addRewardsLoop l ep factor scale as = .ok l') : Good l l' := by
   induction as generalizing l with
   | nil => simp only [addRewardsLoop] at hok; injection hok with hok; subst hok; exact Good.refl h
   | cons a as ih =>
     simp only [addRewardsLoop] at hok
     split at hok; · cases hok
-    cases h1 : rewardAccount l a ((l.acct a).active.balance * factor * scale / rewardAmountDenominator) with
+    cases h1 : rewardAccount l ep a ((l.acct a).active.balance * factor * scale / rewardAmountDenominator) with
     | error e => simp [h1] at hok
     | ok l1 =>
       simp only [h1] at hok
-      have g1 := rewardAccount_good l l1 a _ (has a (List.mem_cons_self ..)) h h1
+      have g1 := rewardAccount_good l l1 ep a _ (has a (List.mem_cons_self ..)) h h1
       have g2 := ih l1 (fun x hx => by rw [g1.n_eq]; exact has x (List.mem_cons_of_mem _ hx)) g1.inv hok
       exact g1.trans g2
 
@@ -925,7 +949,7 @@ theorem addRewards_good (l l' : Ledger) (epoch factor : Nat) (as : List Nat) (ha
   unfold addRewards at hok
   split at hok
   · injection hok with hok; subst hok; exact Good.refl h
-  · exact addRewardsLoop_good l l' factor _ as has h hok
+  · exact addRewardsLoop_good l l' _ factor _ as has h hok
 
 /-- Changing only the signing bookkeeping, the frozen set, the epoch or the proposer does not
 affect the invariant. -/
@@ -1254,7 +1278,7 @@ theorem onEpochChange_good (l l' : Ledger) (epoch : Nat) (hpk : ∀ a ∈ l.para
 
 /-! The fee accumulator is not touched by epoch processing. -/
 
-theorem rewardAccount_feeAcc (l l' : Ledger) (a q : Nat) (hok : rewardAccount l a q = .ok l') :
+theorem rewardAccount_feeAcc (l l' : Ledger) (ep a q : Nat) (hok : rewardAccount l ep a q = .ok l') :
     l'.feeAcc = l.feeAcc := by
   unfold rewardAccount at hok
   split at hok; · injection hok with hok; subst hok; rfl
@@ -1268,8 +1292,8 @@ theorem rewardAccount_feeAcc (l l' : Ledger) (a q : Nat) (hok : rewardAccount l 
     · cases hok
     · injection hok with hok; subst hok; rfl
 
-theorem addRewardsLoop_feeAcc (l l' : Ledger) (factor scale : Nat) (as : List Nat)
-    (hok : addRewardsLoop l factor scale as = .ok l') : l'.feeAcc = l.feeAcc := by
+theorem addRewardsLoop_feeAcc (l l' : Ledger) (ep factor scale : Nat) (as : List Nat)
+    (hok : addRewardsLoop l ep factor scale as = .ok l') : l'.feeAcc = l.feeAcc := by
   induction as generalizing l with
   | nil => simp only [addRewardsLoop] at hok; injection hok with hok; subst hok; rfl
   | cons a as ih =>
@@ -1277,7 +1301,7 @@ theorem addRewardsLoop_feeAcc (l l' : Ledger) (factor scale : Nat) (as : List Na
     split at hok; · cases hok
     split at hok; · cases hok
     rename_i l1 h1
-    rw [ih l1 hok, rewardAccount_feeAcc l l1 a _ h1]
+    rw [ih l1 hok, rewardAccount_feeAcc l l1 ep a _ h1]
 
 theorem rewardEpochSigning_feeAcc (l l' : Ledger) (epoch : Nat) (hok : rewardEpochSigning l epoch = .ok l') :
     l'.feeAcc = l.feeAcc := by
@@ -1288,7 +1312,7 @@ theorem rewardEpochSigning_feeAcc (l l' : Ledger) (epoch : Nat) (hok : rewardEpo
   unfold addRewards at hok
   split at hok
   · injection hok with hok; subst hok; rfl
-  · exact addRewardsLoop_feeAcc { l with sigTotal := 0, sigBy := fun _ => 0 } l' _ _ _ hok
+  · exact addRewardsLoop_feeAcc { l with sigTotal := 0, sigBy := fun _ => 0 } l' _ _ _ _ hok
 
 theorem debondEntry_feeAcc (l l' : Ledger) (e : DebEntry) (hok : debondEntry l e = .ok l') :
     l'.feeAcc = l.feeAcc := by
@@ -1431,7 +1455,7 @@ theorem transferFromCommon_good (l l' : Ledger) (dst amount : Nat) (escrow : Boo
   · -- escrowed: commission split, then deposit of the commission
     have step1 : ∀ gen pool com,
         (if (l.acct dst).active.totalShares ≠ 0 then
-          match computeCommission ((l.acct dst).commission.getD l.params.minCommissionRate) tr with
+          match computeCommission (l.rateOf dst l.epoch) tr with
           | .error _ => (Except.error LErr.fatal : Except LErr (Nat × SharePool × Nat))
           | .ok (com, rest) =>
             if gen1 < rest then .error .fatal
@@ -1552,6 +1576,9 @@ theorem execBody_burned (l l' : Ledger) (signer : Nat) (body : TxBody) (hs : sig
   | withdraw src amount =>
     simp only [execBody, burnOf, Nat.add_zero] at hok ⊢
     unfold Ledger.withdraw at hok; dsimp only at hok; frame_cases hok
+  | amend am =>
+    simp only [execBody, burnOf, Nat.add_zero] at hok ⊢
+    unfold amendCommissionSchedule at hok; dsimp only at hok; frame_cases hok
 
 theorem applyTx_cases (l : Ledger) (signer nonce fee : Nat) (g : TxGas) (body : TxBody) :
     (∃ e, payFee l signer nonce fee = .error e ∧ applyTx l signer nonce fee g body = (l, some e)) ∨
@@ -1588,6 +1615,141 @@ theorem applyTx_supply (l : Ledger) (signer nonce fee : Nat) (gas : TxGas) (body
       cases body <;> simp [burnOf, p1]
     simp only [if_true] at hsup ⊢; omega
 
+/-! ### Gas: charged before execution; running out of gas persists only fee and nonce -/
+
+/-- What the fee payment does, explicitly: the signer's general balance goes down by the fee, its
+nonce up by one, the block's fee accumulator up by the fee — nothing else. -/
+theorem payFee_effect (l l1 : Ledger) (signer nonce fee : Nat) (hok : payFee l signer nonce fee = .ok l1) :
+    (l.acct signer).nonce = nonce ∧ fee + l.params.minTransactBalance ≤ (l.acct signer).general ∧
+    l1 = { (l.setAcct signer { l.acct signer with general := (l.acct signer).general - fee,
+                                                  nonce := (l.acct signer).nonce + 1 }) with
+           feeAcc := l.feeAcc + fee } := by
+  unfold payFee at hok
+  dsimp only at hok
+  split at hok; · cases hok
+  split at hok; · cases hok
+  rename_i hn
+  split at hok; · cases hok
+  rename_i hb
+  injection hok with hok
+  exact ⟨by simpa using hn, by omega, hok.symm⟩
+
+/-- **Gas is charged before execution.** When the gas limit does not cover the per-byte charge of the
+mux plus the cost of the transaction's operation, the body is not executed at all: the result is
+`out of gas` (or, for a `ReclaimEscrow` of zero shares, the argument error raised before the charge)
+— whatever the body, the signer and the ledger. -/
+theorem gas_charged_before_execution (l : Ledger) (signer : Nat) (g : TxGas) (body : TxBody)
+    (hlim : g.limit < g.size * l.params.gasPerByte + opCost l.params body) :
+    execBodyGas l signer g body = .error .outOfGas ∨
+    (execBodyGas l signer g body = .error .invalidArgument ∧ ∃ e, body = .reclaimEscrow e 0) := by
+  unfold execBodyGas
+  dsimp only
+  split
+  · exact Or.inl rfl
+  · split
+    · rename_i e sh
+      split
+      · rename_i h0; subst h0; exact Or.inr ⟨rfl, e, rfl⟩
+      · simp only [hlim, if_true]; exact Or.inl (by first | rfl | trivial)
+    · simp only [hlim, if_true]; exact Or.inl (by first | rfl | trivial)
+
+/-- With enough gas the result is the body's own. -/
+theorem gas_sufficient (l : Ledger) (signer : Nat) (g : TxGas) (body : TxBody)
+    (hlim : g.size * l.params.gasPerByte + opCost l.params body ≤ g.limit) :
+    execBodyGas l signer g body = execBody l signer body ∨ ∃ e, body = .reclaimEscrow e 0 := by
+  unfold execBodyGas
+  dsimp only
+  have h1 : ¬ g.limit < g.size * l.params.gasPerByte := by omega
+  have h2 : ¬ g.limit < g.size * l.params.gasPerByte + opCost l.params body := by omega
+  simp only [h1, if_false]
+  split
+  · rename_i e sh
+    split
+    · rename_i h0; subst h0; exact Or.inr ⟨e, rfl⟩
+    · simp only [h2, if_false]; exact Or.inl (by first | rfl | trivial)
+  · simp only [h2, if_false]; exact Or.inl (by first | rfl | trivial)
+
+/-- **A transaction that fails — at authentication, by running out of gas, or in its body — persists
+nothing but fee and nonce**: the stored ledger is either the one before (rejected at
+authentication) or exactly the one after the fee payment (`payFee_effect`). -/
+theorem applyTx_failure_effect (l : Ledger) (signer nonce fee : Nat) (g : TxGas) (body : TxBody) (e : LErr)
+    (herr : (applyTx l signer nonce fee g body).2 = some e) :
+    (applyTx l signer nonce fee g body).1 = l ∨
+    payFee l signer nonce fee = .ok (applyTx l signer nonce fee g body).1 := by
+  rcases applyTx_cases l signer nonce fee g body with ⟨e', h1, he⟩ | ⟨l1, e', h1, h2, he⟩ | ⟨l1, l2, h1, h2, he⟩
+  · rw [he]; exact Or.inl rfl
+  · rw [he]; exact Or.inr h1
+  · rw [he] at herr; cases herr
+
+/-- **Out of gas ⇒ state unchanged but fee and nonce.** -/
+theorem applyTx_outOfGas (l : Ledger) (signer nonce fee : Nat) (g : TxGas) (body : TxBody)
+    (hlim : g.limit < g.size * l.params.gasPerByte + opCost l.params body) :
+    (∃ e, (applyTx l signer nonce fee g body) = (l, some e)) ∨
+    ∃ l1, payFee l signer nonce fee = .ok l1 ∧
+      ((applyTx l signer nonce fee g body) = (l1, some .outOfGas) ∨
+       (applyTx l signer nonce fee g body) = (l1, some .invalidArgument)) := by
+  rcases applyTx_cases l signer nonce fee g body with ⟨e', h1, he⟩ | ⟨l1, e', h1, h2, he⟩ | ⟨l1, l2, h1, h2, he⟩
+  · exact Or.inl ⟨e', he⟩
+  · have hp : l1.params = l.params := (payFee_burned l l1 signer nonce fee h1).2
+    rcases gas_charged_before_execution l1 signer g body (by rw [hp]; exact hlim) with hg | ⟨hg, _⟩
+    · rw [hg] at h2; injection h2 with h2; subst h2
+      exact Or.inr ⟨l1, h1, Or.inl he⟩
+    · rw [hg] at h2; injection h2 with h2; subst h2
+      exact Or.inr ⟨l1, h1, Or.inr he⟩
+  · -- a successful transaction had enough gas
+    exfalso
+    have hp : l1.params = l.params := (payFee_burned l l1 signer nonce fee h1).2
+    have hx : ∃ l2', execBodyGas l1 signer g body = .ok l2' := by
+      unfold applyTx at he
+      simp only [h1] at he
+      cases hb : execBodyGas l1 signer g body with
+      | error e => simp [hb] at he
+      | ok l2' => exact ⟨l2', rfl⟩
+    obtain ⟨l2', hx⟩ := hx
+    rcases gas_charged_before_execution l1 signer g body (by rw [hp]; exact hlim) with hg | ⟨hg, _⟩ <;>
+      (rw [hg] at hx; cases hx)
+
+/-! ### AmendCommissionSchedule at the ledger level -/
+
+/-- **What an accepted `AmendCommissionSchedule` guarantees** (ledger-level form of the theorems of
+`OasisProofs.C05Commission`): only the signer's schedule changes; if the old schedule was valid and
+ordered so is the new one; the rate used for commission at the current epoch is unchanged (no
+retroactive change); from the current epoch on a rate is in force iff a bound is, the rate lies
+within the bound, and never exceeds 100 %. -/
+theorem amendCommissionSchedule_spec (l l' : Ledger) (src : Nat) (am : Schedule)
+    (hok : amendCommissionSchedule l src am = .ok l') :
+    (∀ i, i ≠ src → l'.acct i = l.acct i) ∧
+    (l.acct src).active.balance ≥ l.params.commissionStakeThreshold ∧
+    (C05Commission.Valid l.params.rules (l.acct src).schedule →
+      C05Commission.Valid l.params.rules (l'.acct src).schedule) ∧
+    (C05Commission.Sorted (l.acct src).schedule →
+      C05Commission.Sorted (l'.acct src).schedule ∧ l'.rateOf src l.epoch = l.rateOf src l.epoch) ∧
+    (∀ t, l.epoch ≤ t →
+      ((l'.acct src).schedule.currentRate t).isSome = ((l'.acct src).schedule.currentBound t).isSome ∧
+      ∀ x bb, (l'.acct src).schedule.currentRate t = some x → (l'.acct src).schedule.currentBound t = some bb →
+        bb.rateMin ≤ x ∧ x ≤ bb.rateMax) := by
+  unfold amendCommissionSchedule at hok
+  split at hok; · cases hok
+  dsimp only at hok
+  split at hok; · cases hok
+  rename_i hthr
+  split at hok; · cases hok
+  rename_i s' hs'
+  injection hok with hok; subst hok
+  have hacc : (l.setAcct src { l.acct src with schedule := s' }).acct src = { l.acct src with schedule := s' } := by
+    simp [Ledger.setAcct, upd]
+  refine ⟨fun i hi => by simp [Ledger.setAcct, upd, hi], by omega, ?_, ?_, ?_⟩
+  · intro hv; rw [hacc]; exact C05Commission.amend_valid _ _ am s' l.epoch hv hs'
+  · intro hso
+    rw [hacc]
+    refine ⟨C05Commission.amend_sorted _ _ am s' l.epoch hso hs', ?_⟩
+    simp only [Ledger.rateOf, hacc]
+    rw [C05Commission.amend_keeps_current_rate _ _ am s' l.epoch hso hs']
+    rfl
+  · intro t ht
+    rw [hacc]
+    exact C05Commission.amend_rate_in_bounds _ _ am s' l.epoch t hs' ht
+
 /-- Nothing was burned: recorded total supply and burn counter are unchanged. -/
 def NoBurn (l l' : Ledger) : Prop := l'.totalSupply = l.totalSupply ∧ l'.burned = l.burned
 
@@ -1595,12 +1757,12 @@ theorem NoBurn.refl (l : Ledger) : NoBurn l l := ⟨rfl, rfl⟩
 theorem NoBurn.trans {a b c : Ledger} (h1 : NoBurn a b) (h2 : NoBurn b c) : NoBurn a c :=
   ⟨h2.1.trans h1.1, h2.2.trans h1.2⟩
 
-theorem rewardAccount_noBurn (l l' : Ledger) (a q : Nat) (hok : rewardAccount l a q = .ok l') : NoBurn l l' := by
+theorem rewardAccount_noBurn (l l' : Ledger) (ep a q : Nat) (hok : rewardAccount l ep a q = .ok l') : NoBurn l l' := by
   unfold rewardAccount at hok; dsimp only at hok
   constructor <;> frame_cases hok
 
-theorem addRewardsLoop_noBurn (l l' : Ledger) (factor scale : Nat) (as : List Nat)
-    (hok : addRewardsLoop l factor scale as = .ok l') : NoBurn l l' := by
+theorem addRewardsLoop_noBurn (l l' : Ledger) (ep factor scale : Nat) (as : List Nat)
+    (hok : addRewardsLoop l ep factor scale as = .ok l') : NoBurn l l' := by
   induction as generalizing l with
   | nil => simp only [addRewardsLoop] at hok; injection hok with hok; subst hok; exact NoBurn.refl _
   | cons a as ih =>
@@ -1608,14 +1770,14 @@ theorem addRewardsLoop_noBurn (l l' : Ledger) (factor scale : Nat) (as : List Na
     split at hok; · cases hok
     split at hok; · cases hok
     rename_i l1 h1
-    exact (rewardAccount_noBurn l l1 a _ h1).trans (ih l1 hok)
+    exact (rewardAccount_noBurn l l1 ep a _ h1).trans (ih l1 hok)
 
 theorem addRewards_noBurn (l l' : Ledger) (ep f : Nat) (as : List Nat) (hok : addRewards l ep f as = .ok l') :
     NoBurn l l' := by
   unfold addRewards at hok
   split at hok
   · injection hok with hok; subst hok; exact NoBurn.refl _
-  · exact addRewardsLoop_noBurn l l' _ _ _ hok
+  · exact addRewardsLoop_noBurn l l' _ _ _ _ hok
 
 theorem rewardEpochSigning_noBurn (l l' : Ledger) (epoch : Nat) (hok : rewardEpochSigning l epoch = .ok l') :
     NoBurn l l' := by
@@ -1632,7 +1794,7 @@ theorem addRewardSingleAttenuated_noBurn (l l' : Ledger) (ep f n d a : Nat)
   · injection hok with hok; subst hok; exact NoBurn.refl _
   · split at hok; · cases hok
     split at hok; · cases hok
-    exact rewardAccount_noBurn l l' a _ hok
+    exact rewardAccount_noBurn l l' _ a _ hok
 
 theorem slashEscrowL_noBurn (l l' : Ledger) (a amt : Nat) (hok : slashEscrowL l a amt = .ok l') : NoBurn l l' := by
   unfold slashEscrowL at hok; dsimp only at hok
@@ -1800,14 +1962,60 @@ theorem genesis_boundary (l l' : Ledger) (hok : genesis l = .ok l') : Boundary l
   · rename_i hinv
     injection hok with hok; subst hok
     simp only [Bool.and_eq_true] at hinv
-    exact ⟨(invB_iff _).1 hinv.1, rfl, rfl⟩
+    exact ⟨(invB_iff _).1 hinv.1.1, rfl, rfl⟩
+  · cases hok
+
+/-- A genesis document that `InitChain` accepts has only valid, ordered commission schedules
+(`SanityCheckAccount` → `PruneAndValidate`): every rate step between the minimum commission rate and
+100 %. Accepted amendments preserve this (`amendCommissionSchedule_spec`), no other operation touches
+a schedule. -/
+theorem genesis_schedules (l l' : Ledger) (hok : genesis l = .ok l') (i : Nat) (hi : i < l'.n) :
+    C05Commission.Valid l'.params.rules (l'.acct i).schedule ∧ C05Commission.Sorted (l'.acct i).schedule := by
+  unfold genesis at hok
+  dsimp only at hok
+  split at hok
+  · rename_i hinv
+    injection hok with hok; subst hok
+    simp only [Bool.and_eq_true] at hinv
+    have hs := hinv.2
+    simp only [schedulesB, List.all_eq_true, List.mem_range] at hs
+    have := hs i hi
+    cases hp : ((l.acct i).schedule.pruneAndValidate l.params.rules l.epoch) with
+    | none => simp [hp] at this
+    | some p =>
+      exact ⟨(C05Commission.genesis_valid _ _ p _ hp).1, (C05Commission.genesis_sorted _ _ p _ hp).1⟩
   · cases hok
 
 def ParamsScoped (l : Ledger) : Prop :=
   (∀ e ∈ l.params.validators, e < l.n) ∧ (∀ a ∈ l.params.pkOrder, a < l.n)
 
+def msgScoped (n : Nat) : MsgBody → Prop
+  | .transfer dst _ => dst < n
+  | .withdraw src _ => src < n
+  | .addEscrow e _ => e < n
+  | .reclaimEscrow e _ => e < n
+
+/-- **Runtime messages preserve the invariant**: a transfer, withdrawal, escrow or reclaim performed by
+a runtime account through `ExecuteMessage` is the corresponding transaction handler without fee,
+nonce and gas. -/
+theorem execMsg_good (l l' : Ledger) (rt : Nat) (m : MsgBody) (hrt : rt < l.n) (hm : msgScoped l.n m) (h : Inv l)
+    (hok : execMsg l rt m = .ok l') : Good l l' := by
+  cases m with
+  | transfer dst amount => exact transfer_good l l' rt dst amount hrt hm h hok
+  | withdraw src amount => exact withdraw_good l l' rt src amount hrt hm h hok
+  | addEscrow e amount =>
+    simp only [execMsg] at hok
+    split at hok; · cases hok
+    exact addEscrow_good l l' rt e amount hrt hm h hok
+  | reclaimEscrow e shares =>
+    simp only [execMsg] at hok
+    split at hok; · cases hok
+    split at hok; · cases hok
+    exact reclaimEscrow_good l l' rt e shares hrt hm h hok
+
 def opScoped (n : Nat) : Op → Prop
   | .tx s _ _ _ b => s < n ∧ bodyScoped n b
+  | .msg rt m => rt < n ∧ msgScoped n m
   | .slash a _ => a < n
   | .transferFromCommon d _ _ => d < n
   | .addRewards _ _ as => ∀ a ∈ as, a < n
@@ -1828,6 +2036,7 @@ theorem keep_good {l : Ledger} {r : Except LErr Ledger} (h : Inv l) (hr : ∀ l'
 theorem applyOp_good (l : Ledger) (o : Op) (hsc : opScoped l.n o) (h : Inv l) : Good l (applyOp l o) := by
   cases o with
   | tx s n f g b => exact applyTx_good l s n f g b hsc.1 hsc.2 h
+  | msg rt m => exact keep_good h (fun l' hl => execMsg_good l l' rt m hsc.1 hsc.2 h hl)
   | slash a amt => exact keep_good h (fun l' hl => slashEscrowL_good l l' a amt hsc h hl)
   | transferFromCommon d amt e => exact keep_good h (fun l' hl => transferFromCommon_good l l' d amt e hsc h hl)
   | addRewards ep f as => exact keep_good h (fun l' hl => addRewards_good l l' ep f as hsc h hl)
@@ -1927,7 +2136,7 @@ def exLedger : Ledger :=
   { n := 3,
     acct := fun i =>
       if i = 0 then { general := 1000, active := { balance := 500, totalShares := 300 },
-                      debonding := { balance := 40, totalShares := 30 }, commission := some 20000 }
+                      debonding := { balance := 40, totalShares := 30 }, schedule := { rates := [⟨0, 20000⟩], bounds := [⟨0, 0, 100000⟩] } }
       else if i = 1 then { general := 2000, allowances := [(0, 50)] }
       else {},
     del := fun e d => if e = 0 ∧ d = 0 then 200 else if e = 0 ∧ d = 1 then 100 else 0,
@@ -1938,7 +2147,11 @@ def exLedger : Ledger :=
     params := { minTransactBalance := 10, maxAllowances := 4, debondingInterval := 1,
                 rewardSchedule := [(10, 50000000)], rewardFactorEpochSigned := 1000,
                 rewardFactorBlockProposed := 1000, signingThresholdNum := 1, signingThresholdDen := 2,
-                slashAmount := 100, burnAddr := 2, reserved := [2], pkOrder := [0, 1], validators := [0] } }
+                slashAmount := 100, burnAddr := 2, reserved := [2], pkOrder := [0, 1], validators := [0],
+                gasPerByte := 1, gasCosts := { transfer := 10, burn := 10, addEscrow := 20, reclaimEscrow := 20,
+                                               amendCommissionSchedule := 30, allow := 10, withdraw := 10 },
+                rateChangeInterval := 1, rateBoundLead := 2, maxRateSteps := 4, maxBoundSteps := 4,
+                commissionStakeThreshold := 100, allowEscrowMessages := true } }
 
 example : Boundary exLedger :=
   ⟨(invB_iff _).1 (by decide), rfl, rfl⟩
@@ -1947,13 +2160,20 @@ example : ParamsScoped exLedger := by
   constructor <;> (intro x hx; simp [exLedger] at hx; rcases hx with rfl | rfl <;> decide)
 
 /-- A block with an epoch transition, fee disbursement, evidence (slash), a valid transfer, a burn,
-an escrow, a reclaim, a withdraw against an allowance, an invalid transaction (bad nonce) and a
-governance deposit. -/
+an escrow, a reclaim, a withdraw against an allowance, an invalid transaction (bad nonce), a
+governance deposit, a reward through `TransferFromCommon`, an accepted and a refused
+`AmendCommissionSchedule`, a transfer that runs out of gas, and runtime messages (transfer, escrow,
+reclaim, and a refused withdrawal) from account 1. -/
+def exGas : TxGas := { limit := 200, size := 100 }
 def exBlock : Block :=
   { newEpoch := some 2, proposer := some 0, numEligible := 2, voters := [0], evidence := [0],
-    ops := [.tx 1 0 5 {} (.transfer 0 100), .tx 1 1 0 {} (.burn 40), .tx 1 2 3 {} (.addEscrow 0 250),
-            .tx 1 3 0 {} (.reclaimEscrow 0 60), .tx 0 0 1 {} (.withdraw 1 50), .tx 0 7 0 {} (.burn 1),
-            .govDeposit 1 20, .transferFromCommon 0 300 true] }
+    ops := [.tx 1 0 5 exGas (.transfer 0 100), .tx 1 1 0 exGas (.burn 40), .tx 1 2 3 exGas (.addEscrow 0 250),
+            .tx 1 3 0 exGas (.reclaimEscrow 0 60), .tx 0 0 1 exGas (.withdraw 1 50), .tx 0 7 0 exGas (.burn 1),
+            .govDeposit 1 20, .transferFromCommon 0 300 true,
+            .tx 0 1 2 exGas (.amend { rates := [⟨3, 30000⟩], bounds := [⟨5, 10000, 50000⟩] }),
+            .tx 0 2 0 exGas (.amend { rates := [⟨4, 100001⟩] }),
+            .tx 1 4 7 { limit := 105, size := 100 } (.transfer 0 1),
+            .msg 1 (.transfer 0 5), .msg 1 (.addEscrow 0 10), .msg 1 (.reclaimEscrow 0 3), .msg 1 (.withdraw 0 1)] }
 
 example : blockScoped exLedger.n exBlock := by
   refine ⟨?_, ?_, ?_⟩
@@ -1961,11 +2181,21 @@ example : blockScoped exLedger.n exBlock := by
   · intro v hv; simp [exBlock] at hv; subst hv; decide
   · intro o ho
     simp [exBlock] at ho
-    rcases ho with rfl | rfl | rfl | rfl | rfl | rfl | rfl | rfl <;> simp [opScoped, bodyScoped, exLedger]
+    rcases ho with rfl | rfl | rfl | rfl | rfl | rfl | rfl | rfl | rfl | rfl | rfl | rfl | rfl | rfl | rfl <;>
+      simp [opScoped, bodyScoped, msgScoped, exLedger]
 
 example : (match runBlock exLedger exBlock with
     | some l => (l.totalSupply, l.burned, l.lastBlockFees, l.deb.length, invB l)
-    | none => (0, 0, 0, 0, false)) = (13516, 40, 6, 1, true) := by decide
+    | none => (0, 0, 0, 0, false)) = (13516, 40, 12, 1, true) := by decide +kernel
+
+example : (match runBlock exLedger exBlock with
+    | some l => ((l.acct 0).schedule.rates.map (·.rate), (l.acct 0).nonce, (l.acct 1).nonce)
+    | none => ([], 0, 0)) = ([20000, 30000], 3, 5) := by decide +kernel
+
+/-- The out-of-gas transfer of `exBlock` (limit 105 < 100 bytes · 1 + 10) persists fee and nonce only. -/
+example : (applyTx exLedger 1 0 7 { limit := 105, size := 100 } (.transfer 0 1)).2 = some .outOfGas := by decide
+example : gas_charged_before_execution exLedger 1 { limit := 105, size := 100 } (.transfer 0 1) (by decide)
+    = Or.inl rfl := rfl
 
 /-! ### Reachable pools are well-formed (no balance without shares) -/
 
@@ -2008,6 +2238,9 @@ theorem allow_samePools (l l' : Ledger) (s b : Nat) (n : Bool) (c : Nat) (hok : 
 theorem withdraw_samePools (l l' : Ledger) (d s a : Nat) (hok : Ledger.withdraw l d s a = .ok l') :
     SamePools l l' := by
   unfold Ledger.withdraw at hok; dsimp only at hok; same_pools hok
+theorem amendCommissionSchedule_samePools (l l' : Ledger) (s : Nat) (am : Schedule)
+    (hok : amendCommissionSchedule l s am = .ok l') : SamePools l l' := by
+  unfold amendCommissionSchedule at hok; dsimp only at hok; same_pools hok
 theorem govDeposit_samePools (l l' : Ledger) (s a : Nat) (hok : govDeposit l s a = .ok l') : SamePools l l' := by
   unfold govDeposit at hok; dsimp only at hok; same_pools hok
 theorem govRefund_samePools (l l' : Ledger) (s a : Nat) (hok : govRefund l s a = .ok l') : SamePools l l' := by
@@ -2140,11 +2373,12 @@ theorem applyTx_wf (l : Ledger) (s n f : Nat) (g : TxGas) (b : TxBody) (h : Pool
     | reclaimEscrow e sh => exact reclaimEscrow_wf l1 l2 s e sh w1 h2
     | allow bb neg ch => exact (allow_samePools l1 l2 s bb neg ch h2).wf w1
     | withdraw src a => exact (withdraw_samePools l1 l2 s src a h2).wf w1
+    | amend am => exact (amendCommissionSchedule_samePools l1 l2 s am h2).wf w1
 
 /-- Reward of one account keeps its pool well-formed provided no reward is paid on an empty
 balance (both callers compute the reward as a multiple of the balance). -/
-theorem rewardAccount_wf (l l' : Ledger) (a q : Nat) (h : PoolsWF l)
-    (hq : (l.acct a).active.balance = 0 → q = 0) (hok : rewardAccount l a q = .ok l') : PoolsWF l' := by
+theorem rewardAccount_wf (l l' : Ledger) (ep a q : Nat) (h : PoolsWF l)
+    (hq : (l.acct a).active.balance = 0 → q = 0) (hok : rewardAccount l ep a q = .ok l') : PoolsWF l' := by
   unfold rewardAccount at hok
   split at hok; · injection hok with hok; subst hok; exact h
   split at hok; · injection hok with hok; subst hok; exact h
@@ -2174,10 +2408,10 @@ theorem addRewardSingleAttenuated_wf (l l' : Ledger) (ep f n d a : Nat) (h : Poo
   · injection hok with hok; subst hok; exact h
   · split at hok; · cases hok
     split at hok; · cases hok
-    exact rewardAccount_wf l l' a _ h (fun hb => by rw [hb]; simp) hok
+    exact rewardAccount_wf l l' _ a _ h (fun hb => by rw [hb]; simp) hok
 
-theorem addRewardsLoop_wf (l l' : Ledger) (f sc : Nat) (as : List Nat) (h : PoolsWF l)
-    (hok : addRewardsLoop l f sc as = .ok l') : PoolsWF l' := by
+theorem addRewardsLoop_wf (l l' : Ledger) (ep f sc : Nat) (as : List Nat) (h : PoolsWF l)
+    (hok : addRewardsLoop l ep f sc as = .ok l') : PoolsWF l' := by
   induction as generalizing l with
   | nil => simp only [addRewardsLoop] at hok; injection hok with hok; subst hok; exact h
   | cons a as ih =>
@@ -2185,14 +2419,14 @@ theorem addRewardsLoop_wf (l l' : Ledger) (f sc : Nat) (as : List Nat) (h : Pool
     split at hok; · cases hok
     split at hok; · cases hok
     rename_i l1 h1
-    exact ih l1 (rewardAccount_wf l l1 a _ h (fun hb => by rw [hb]; simp) h1) hok
+    exact ih l1 (rewardAccount_wf l l1 ep a _ h (fun hb => by rw [hb]; simp) h1) hok
 
 theorem addRewards_wf (l l' : Ledger) (ep f : Nat) (as : List Nat) (h : PoolsWF l)
     (hok : addRewards l ep f as = .ok l') : PoolsWF l' := by
   unfold addRewards at hok
   split at hok
   · injection hok with hok; subst hok; exact h
-  · exact addRewardsLoop_wf l l' _ _ _ h hok
+  · exact addRewardsLoop_wf l l' _ _ _ _ h hok
 
 theorem rewardEpochSigning_wf (l l' : Ledger) (ep : Nat) (h : PoolsWF l)
     (hok : rewardEpochSigning l ep = .ok l') : PoolsWF l' := by
@@ -2307,9 +2541,28 @@ theorem transferFromCommon_wf (l l' : Ledger) (d amt : Nat) (e : Bool) (h : Pool
       injection hok with hok; subst hok
       exact poolsWF_upd l.acct d _ rfl h (deposit_wf _ _ _ _ _ hd hpool) (h d).2
 
+theorem execMsg_wf (l l' : Ledger) (rt : Nat) (m : MsgBody) (h : PoolsWF l) (hok : execMsg l rt m = .ok l') :
+    PoolsWF l' := by
+  cases m with
+  | transfer dst amount => exact (transfer_samePools l l' rt dst amount hok).wf h
+  | withdraw src amount => exact (withdraw_samePools l l' rt src amount hok).wf h
+  | addEscrow e amount =>
+    simp only [execMsg] at hok
+    split at hok; · cases hok
+    exact addEscrow_wf l l' rt e amount h hok
+  | reclaimEscrow e shares =>
+    simp only [execMsg] at hok
+    split at hok; · cases hok
+    split at hok; · cases hok
+    exact reclaimEscrow_wf l l' rt e shares h hok
+
 theorem applyOp_wf (l : Ledger) (o : Op) (h : PoolsWF l) : PoolsWF (applyOp l o) := by
   cases o with
   | tx s n f g b => exact applyTx_wf l s n f g b h
+  | msg rt m =>
+    simp only [applyOp]; cases hr : execMsg l rt m with
+    | error e => exact h
+    | ok l' => exact execMsg_wf l l' rt m h hr
   | slash a amt =>
     simp only [applyOp]; cases hr : slashEscrowL l a amt with
     | error e => exact h
